@@ -105,6 +105,21 @@ Theorem nonflat_follows_partial :
 Proof. exact C18Proofs.nonflat_follows_partial_lemma. Qed.
 Print Assumptions nonflat_follows_partial.
 
+(* ... more generally when no call overtakes an older call for the SAME
+   state ([c_reord] records such an overtaking); calls for different states
+   (BindMany, BindConnected) may arrive in any order *)
+Theorem nonflat_follows_per_state_order :
+  forall (c : pcfg) (steps : list step),
+    p_flat c = false -> p_addonly c = false ->
+    never_held c steps = true ->
+    steps_wf c steps = true ->
+    let r := run c steps in
+    c_reord r = false ->
+    quiescent r = true ->
+    follows (p_n c) (c_src r) (t_ticks (c_tgt r)) = true.
+Proof. exact C18Proofs.nonflat_follows_per_state_order_lemma. Qed.
+Print Assumptions nonflat_follows_per_state_order.
+
 (* ... and oldest-first delivery alone is NOT enough: while the target's Add
    transition is still in its negotiation phase, EvRemove sees an empty
    queue, a transition in progress and an inactive state, and returns
